@@ -112,6 +112,18 @@ func (f *frame) applyCall(c *ssa.CallCommon, v ssa.Value, pos token.Pos, deferre
 		if slot != nil {
 			f.slotRequires(slot, sargs, pos)
 		}
+		// interface method calls are visible to at_call / calls clauses as pkg.Iface.method
+		var invMatches map[int]string
+		if c.IsInvoke() {
+			if n, ok := c.Value.Type().(*types.Named); ok && n.Obj().Pkg() != nil {
+				ikey := n.Obj().Pkg().Name() + "." + n.Obj().Name() + "." + c.Method.Name()
+				f.atCallObligations(ikey, sargs, pos)
+				invMatches = f.noteCall(ikey, sargs)
+			}
+		}
+		if len(invMatches) > 0 {
+			defer func() { f.noteCallResult(invMatches, result) }()
+		}
 		oldHeap := f.curHeap.clone()
 		if f.wantUnwind() && !f.inDeferred {
 			f.excFromCall("dynamic call", pos, func() {
